@@ -48,7 +48,9 @@ LEVEL_TEXT = ("Seeded interleavings of iterator / lazy-sequence steps with "
               "inserts, deletes, pops, clear, update and targeted emptying, "
               "splitting and refilling of the parked leaf (all families, 4 "
               "kinds, both implementations, transient and stored with "
-              "commits and evictions; on transient containers also cursor "
+              "commits, evictions, transaction aborts and another client's "
+              "commits (+ synchronisation) under the parked cursors; on "
+              "transient containers also cursor "
               "steps INSIDE a mutation: during its n-th key comparison or in "
               "the __del__ of a value it releases); every step must yield a historical "
               "entry or raise StopIteration/RuntimeError/IndexError, the "
